@@ -45,7 +45,7 @@ func TestC20_Listeners(t *testing.T) {
 		per := rapid.IntRange(1, 60).Draw(rt, "per")
 		closeBy := []string{"client-close", "server-conn-close", "raw-socket-close"}[rapid.IntRange(0, 2).Draw(rt, "closeby")]
 		side := []string{"client", "server"}[rapid.IntRange(0, 1).Draw(rt, "side")]
-		delay := rapid.IntRange(0, 400).Draw(rt, "delay")
+		delay := rapid.IntRange(0, 100).Draw(rt, "delay_percent_of_registrations")
 		procs := []int{1, 2, 16}[rapid.IntRange(0, 2).Draw(rt, "procs")]
 		unsubEvery := rapid.IntRange(0, 5).Draw(rt, "unsubevery")
 		kase := &c20lisCase{Registrars: g, PerG: per, CloseBy: closeBy, Side: side, Delay: delay}
@@ -101,6 +101,7 @@ func TestC20_Listeners(t *testing.T) {
 					defer sc.Close()
 				}
 				var closeInit atomic.Bool
+				var progress atomic.Int64
 				var regs []*reg
 				var mu sync.Mutex
 				var wg sync.WaitGroup
@@ -144,6 +145,7 @@ func TestC20_Listeners(t *testing.T) {
 							mu.Lock()
 							regs = append(regs, r)
 							mu.Unlock()
+							progress.Add(1)
 							if k%3 == 0 {
 								runtimeGosched()
 							}
@@ -156,7 +158,8 @@ func TestC20_Listeners(t *testing.T) {
 					}(i)
 				}
 				close(start)
-				for i := 0; i < delay; i++ {
+				thr := int64(g*per*delay) / 100
+				for spin := 0; progress.Load() < thr && spin < 5000000; spin++ {
 					runtimeGosched()
 				}
 				closeInit.Store(true)
